@@ -245,7 +245,7 @@ def isConst : Expr → Bool
   | .var _ => false
   | .lit _ => true
   | .paren e => isConst e
-  | .cast e => isConst e
+  | .cast _ => false            -- parenCastNode does not override canEvaluate()
   | .un _ e => isConst e
   | .bin _ l r => isConst l && isConst r
   | .tern c t f => isConst c && isConst t && isConst f
